@@ -373,6 +373,13 @@ theorem separators_one_class :
 theorem lexer_drops_nothing (tbl : List (String × Lex.Scanner)) (s : List Char) (toks : List Tok) (h : Lex.lex tbl s = .ok toks) :
     Lex.Covers toks (Lex.strip s) := Lex.lex_covers tbl s toks h
 
+/-- every function name followed by `(` is lexed as its own keyword class by the lexer table of this run - never as a shorter
+    keyword that it starts with (`SUMIFS(` is not `SUM`, `IFS`, `(`), nor as a cell reference (checked by evaluation over the table) -/
+theorem keywords_lex_as_themselves :
+    E2P.Generated.lexerKeywords.all (fun kw =>
+      Lex.lexOne (Lex.table E2P.Generated.lexerOrder E2P.Generated.lexerRegexes) (kw.2.toList ++ ['(']) == Lex.One.tok kw.1 ['(']) = true := by
+  decide +kernel
+
 /-- whitespace before the first token and after the last one never changes what the lexer returns (any table, any text) -/
 theorem whitespace_around_formula (tbl : List (String × Lex.Scanner)) (ws1 s ws2 : List Char)
     (h1 : ∀ c ∈ ws1, Lex.isWs c = true) (h2 : ∀ c ∈ ws2, Lex.isWs c = true) : Lex.lex tbl (ws1 ++ s ++ ws2) = Lex.lex tbl s :=
